@@ -1351,15 +1351,16 @@ fn do_execute(h: &mut Hist, m: &mut Model, st: &mut Stats, k: usize, step: &str)
 // ---------------------------------------------------------------------------------------------
 
 fn excluded(h: &Hist) -> CaseResult {
-    Ok(Obs::trivial().label("excluded-known:stale-annotation-after-reorg").label_if(h.flags.truncations > 0, "rewind"))
+    let label = if h.tainted_stale_subtree_root && !h.tainted_stale_annotation { "excluded-known:stale-subtree-root-after-reorg" } else { "excluded-known:stale-annotation-after-reorg" };
+    Ok(Obs::trivial().label(label).label_if(h.flags.truncations > 0, "rewind"))
 }
 
 /// `Ok(true)` = continue, `Ok(false)` = the history hit the known shardtree finding and must stop.
 fn guard(h: &Hist, r: Result<(), Fail>) -> Result<bool, Fail> {
     match r {
-        Err(f) if f.signature == SIG_TREE_CONFLICT => Ok(false),
+        Err(f) if f.signature == SIG_TREE_CONFLICT || f.signature == SIG_STALE_SUBTREE_ROOT => Ok(false),
         Err(f) => Err(f),
-        Ok(()) => Ok(!h.tainted_stale_annotation),
+        Ok(()) => Ok(h.tainted().is_none()),
     }
 }
 
@@ -1586,7 +1587,7 @@ fn known_contradiction_case() -> C08Case {
     let recv = |scope: ScopeSel, v: u64| BlockSpec { txs: vec![TxSpec { items: vec![ItemSpec::Recv { pool: Pool::Sapling, who: Who::Wallet(0), scope, value: v }] }] };
     C08Case {
         base: Case {
-            world: WorldSpec { seed: [9; 32], n_accounts: 1, n_foreign: 0, nu6_3_offset: None, retention_interval: None },
+            world: WorldSpec { seed: [9; 32], n_accounts: 1, n_foreign: 0, nu6_3_offset: None, retention_interval: None, base: None },
             long: false,
             ops: vec![Op::AddBlocks(vec![recv(ScopeSel::External, 1_000_000), recv(ScopeSel::Internal, 2_000_000)]), Op::AddEmpty(3)],
             final_chunk: 10,
@@ -1614,7 +1615,7 @@ fn known_have_ge_need_case() -> C08Case {
     let recv = |pool: Pool, v: u64| BlockSpec { txs: vec![TxSpec { items: vec![ItemSpec::Recv { pool, who: Who::Wallet(0), scope: ScopeSel::External, value: v }] }] };
     C08Case {
         base: Case {
-            world: WorldSpec { seed: [11; 32], n_accounts: 1, n_foreign: 0, nu6_3_offset: None, retention_interval: None },
+            world: WorldSpec { seed: [11; 32], n_accounts: 1, n_foreign: 0, nu6_3_offset: None, retention_interval: None, base: None },
             long: false,
             ops: vec![Op::AddBlocks(vec![recv(Pool::Orchard, 1_000_000), recv(Pool::Sapling, 30_000)]), Op::AddEmpty(5)],
             final_chunk: 10,
